@@ -6,7 +6,8 @@ import BfeVerif.C02.Model
   `su <old> <backends> <keys>`      the same after Init(old) + one Balance + Update(backends)
   `gs <sticky> <strategy> <hashHeader hex> <subs> <reqs>`   BalanceGslb.Balance per request (crossRetry = 0)
       backends = `addrinfo/weight/avail,...` (`-` = none);  subs = `name=weight=backends;...`
-      reqs     = `ip|headerValue|cookieValue|uri,...` (hex; `n` = absent, `-` = empty)
+      reqs     = script of `ip|headerValue|cookieValue|uri` (hex; `n` = absent, `-` = empty) and control items
+                 `R:name=w/...` (Reload)  `B:name=addr/w/a+...` (BackendReload)  `A:name:addrinfo=0|1` (SetAvail)
   results: `st`/`su`: per key the AddrInfo or `E:down` / `E:fail`;
            `gs`: per request `<key hex|rnd>;<SubclusterName>;<AddrInfo|*|E>`
 -/
@@ -169,6 +170,73 @@ def runGslbReq (g : Gslb) (subs : List SubC) (sticky : Bool) (st : Strategy) (r 
         else none
       (model, f, [if sticky then "sticky" else "nonsticky"])
 
+/-- one item of a `gs` script -/
+inductive Item where
+  | req (r : ReqKeys)
+  | reload (conf : List (String × Int))              -- `R:name=w/...`   bal.Reload
+  | backends (name : String) (bs : List Bk)          -- `B:name=addr/w/a+...`  bal.BackendReload of one sub-cluster
+  | avail (name addr : String) (v : Bool)            -- `A:name:addrinfo=0|1`  SetAvail
+
+def parseItem (cookieSpec : Bool) (s : String) : Option Item :=
+  if s.startsWith "R:" then
+    (((s.drop 2).toString.splitOn "/").mapM (fun (t : String) => match t.splitOn "=" with
+      | [n, w] => (String.toInt? w).map fun w => (n, w)
+      | _ => none)).map Item.reload
+  else if s.startsWith "B:" then
+    match (s.drop 2).toString.splitOn "=" with
+    | [n, b] => (parseBks (b.replace "+" ",")).map (Item.backends n)
+    | _ => none
+  else if s.startsWith "A:" then
+    match (s.drop 2).toString.splitOn "=" with
+    | [na, v] =>
+      match na.splitOn ":" with
+      | n :: rest => if rest.isEmpty then none else some (Item.avail n (":".intercalate rest) (v == "1"))
+      | [] => none
+    | _ => none
+  else (parseReq cookieSpec s).map Item.req
+
+structure ScriptSt where
+  subs : List SubC
+  impls : List String
+  outs : List String := []
+  fails : List (Option String) := []
+  tags : List String := []
+  reloadErr : Bool := false
+
+/-- the state a script is judged against depends only on the LAST configuration: a reload keeps the backends of the
+    sub-clusters it keeps, a new sub-cluster has none (history independence is built into the oracle) -/
+def runScript (sticky : Bool) (st : Strategy) : List Item → ScriptSt → ScriptSt
+  | [], s => s
+  | .req r :: rest, s =>
+    let (tok, impls) := match s.impls with
+      | t :: ts => (t, ts)
+      | [] => ("", [])
+    match gslbInit (s.subs.map fun x => { name := x.name, w := x.w }) with
+    | none => runScript sticky st rest { s with impls := impls, outs := "no-cluster" :: s.outs, fails := some "no-cluster" :: s.fails }
+    | some g =>
+      let x := runGslbReq g s.subs sticky st r tok
+      let tags := x.2.2 ++ (if (posW g.subs).length ≥ 2 then ["nt", "multi-sub"] else ["single-sub"]) ++
+        (if (posW g.subs).length < g.subs.length then ["nonpos-sub"] else []) ++
+        (if r.ip.length == 16 ∧ r.ip.take 12 == [0,0,0,0,0,0,0,0,0,0,255,255] then ["v4mapped"] else [])
+      runScript sticky st rest { s with impls := impls, outs := x.1 :: s.outs, fails := x.2.1 :: s.fails, tags := tags.reverse ++ s.tags }
+  | .reload conf :: rest, s =>
+    if !(conf.any fun p => decide (0 < p.2)) then { s with reloadErr := true }
+    else
+      let subs := conf.map fun p =>
+        { name := p.1, w := p.2, bs := ((s.subs.find? fun x => x.name == p.1).map (·.bs)).getD [] : SubC }
+      let same := (subs.map fun x => (x.name, x.w)).mergeSort (fun a b => decide (a.1 ≤ b.1)) ==
+                  (s.subs.map fun x => (x.name, x.w)).mergeSort (fun a b => decide (a.1 ≤ b.1))
+      runScript sticky st rest { s with subs := subs, tags := (if same then "reload-same" else "reload-changed") :: s.tags }
+  | .backends n bs :: rest, s =>
+    let same := (s.subs.find? fun x => x.name == n).map (fun x => x.bs.mergeSort (fun a b => decide (a.addr ≤ b.addr))) ==
+      some (bs.mergeSort fun a b => decide (a.addr ≤ b.addr))
+    runScript sticky st rest { s with subs := s.subs.map fun x => if x.name == n then { x with bs := bs } else x
+                                      tags := (if same then "backend-reload-same" else "backend-reload-changed") :: s.tags }
+  | .avail n a v :: rest, s =>
+    runScript sticky st rest { s with
+      subs := s.subs.map fun x => if x.name == n then { x with bs := x.bs.map fun b => if b.addr == a then { b with avail := v } else b } else x
+      tags := "avail-flip" :: s.tags }
+
 def run (op impl : String) : Ans :=
   match op.splitOn " " with
   | ["st", bss, ks] =>
@@ -179,30 +247,30 @@ def run (op impl : String) : Ans :=
     match parseBks bss, parseKeys ks with
     | some bs, some keys => runSticky bs keys impl ["su"]
     | _, _ => { model := "bad-op", verdict := "skip" }
-  | ["gs", stk, strat, spec, subsS, reqsS] =>
+  | ["gs", stk, strat, spec, subsS, scriptS] =>
     match stratOf strat, bytesOfHex spec, (subsS.splitOn ";").mapM parseSub with
     | some st, some specB, some subs =>
       let cookieSpec := specB.contains (58 : UInt8)
-      match (reqsS.splitOn ",").mapM (parseReq cookieSpec) with
+      match (scriptS.splitOn ",").mapM (parseItem cookieSpec) with
       | none => { model := "bad-op", verdict := "skip" }
-      | some reqs =>
+      | some items =>
         match gslbInit (subs.map fun s => { name := s.name, w := s.w }) with
         | none => { model := "init-err", verdict := if impl == "init-err" then "ok" else "FAIL:init", tags := ["gs", "init-err"] }
-        | some g =>
-          let impls := impl.splitOn ","
-          let rs := (reqs.zip impls).map fun (r, i) => runGslbReq g subs (stk == "1") st r i
-          let model := ",".intercalate (rs.map (·.1))
-          let fails := rs.map (·.2.1)
+        | some _ =>
+          let r := runScript (stk == "1") st items { subs := subs, impls := impl.splitOn "," }
+          if r.reloadErr then
+            { model := "reload-err", verdict := if impl == "reload-err" then "ok" else "FAIL:reload-rejected", tags := ["gs", "reload-err"] }
+          else
+          let model := ",".intercalate r.outs.reverse
+          let fails := r.fails.reverse
           let other := firstSome (fails.map fun f => if f == some "preferred-empty-id-random" then none else f)
-          let verdict := if impls.length != reqs.length then "FAIL:shape" else
+          let nreq := (items.filter fun i => match i with | .req _ => true | _ => false).length
+          let verdict := if (impl.splitOn ",").length != nreq then "FAIL:shape" else
             match other, firstSome fails with
             | some c, _ => "FAIL:" ++ c
             | none, some c => "FAIL:" ++ c
             | none, none => "ok"
-          let tags := (["gs", "strat" ++ strat] ++ (rs.map (·.2.2)).flatten ++
-            (if (posW g.subs).length ≥ 2 then ["nt", "multi-sub"] else ["single-sub"]) ++
-            (if (posW g.subs).length < g.subs.length then ["nonpos-sub"] else [])).eraseDups
-          { model := model, verdict := verdict, tags := tags }
+          { model := model, verdict := verdict, tags := (["gs", "strat" ++ strat] ++ r.tags.reverse).eraseDups }
     | _, _, _ => { model := "bad-op", verdict := "skip" }
   | _ => { model := "bad-op", verdict := "skip" }
 
